@@ -14,6 +14,7 @@ RULE = (
     "case = generated device with 1..4 terminals x terminal value in {0, None, generated complex |v|<=1} x field/current drive x "
     "screening on/off (operators refreshed every iteration) x adaptive on/off, 6..40 steps, every frame recorded or every 2nd/3rd; "
     "non-trivial = driven run (field or current non-zero) with >= 4 terminal sites; distinct by spec hash"
+    "; optional history: the same device object simulated before with another terminal setting, optionally as the starting state"
 )
 ASSUMPTIONS = [
     "terminal sites = boundary sites inside a terminal polygon, recomputed by winding number (cases with a boundary site within 1e-9 of a terminal outline are discarded)",
